@@ -142,6 +142,14 @@ def sensitivity(args):
             if os.path.exists(meta_p) and os.path.exists(patch):
                 meta = json.load(open(meta_p))
                 items.append(("seeded/" + os.path.basename(d), meta["property"], True, None, patch))
+        # independently written behaviour-preserving refactors: every listed check must stay quiet
+        for d in sorted(glob.glob(os.path.join(VERIF, "harmless", "*"))):
+            meta_p = os.path.join(d, "meta.json")
+            if os.path.exists(meta_p):
+                meta = json.load(open(meta_p))
+                for patch_name in meta.get("patches", ["patch.diff"]):
+                    for prop in meta["properties"]:
+                        items.append(("harmless/%s/%s" % (os.path.basename(d), patch_name), prop, False, None, os.path.join(d, patch_name)))
         for name, prop, must, edits, patch in items:
             if only and only not in name and only != prop:
                 continue
